@@ -142,7 +142,11 @@ CLAIMED["C06"]["text"] += _CALLTR % "c06_code_call_try_response"
 CLAIMED["C05"]["technique"] += " + the code's own functions translated to Gallina on every run and proved equivalent to the model"
 CLAIMED["C02"]["text"] += CODE2 % ("client/call.rs try_write_prelude (loop), try_write_prelude_part (phase machine), do_write_send_line, do_write_headers (loop, blank line glued to the last header line); the request is represented by the rendered pieces of its request line and its effective headers",
                                    "c02_code_write_prelude, c02_code_write_headers: for every request with at least one effective header, every phase and capacity: same new phase, same bytes, same refusal; the translated loop's fuel suffices")
-for _p in ("C02", "C03", "C04", "C06", "C07", "C08", "C09", "C10", "C11", "C12", "C17"):
+_AMH = CODE2 % ("client/amended.rs AmendedRequest::headers and the accessors built on it (headers_get_all, headers_get, headers_len); the added ArrayVec, the unset list and the original HeaderMap are lists in iteration order",
+               "%s: plain equalities with the model's am_headers / get_all: added headers first in the order added, then the original ones that are not unset; the unset list filters inherited headers only")
+CLAIMED["C16"]["text"] += _AMH % "c16_code_headers, c16_code_headers_len"
+CLAIMED["C13"]["text"] += _AMH % "c13_code_headers, c13_code_headers_get_all"
+for _p in ("C02", "C03", "C04", "C06", "C07", "C08", "C09", "C10", "C11", "C12", "C13", "C16", "C17"):
     CLAIMED[_p]["technique"] += " + the code's own functions translated to Gallina on every run and proved equivalent to the model"
 
 NOT_YET = {}
